@@ -107,7 +107,11 @@ class RefsExtractor(ConversionsVisitor, ObjectVisitor, WithConversionsResolver):
 
     def object(self, tp: AnyType, fields: Sequence[ObjectField]):
         if parent := get_discriminated_parent(get_origin_or_type(tp)):
-            self._incr_ref(get_type_name(parent).json_schema, parent)
+            # the schema of the class is an allOf with a reference to its parent: count it
+            # twice so that the definition is emitted even when the class is used only once
+            parent_ref = get_type_name(parent).json_schema
+            self._incr_ref(parent_ref, parent)
+            self._incr_ref(parent_ref, parent)
         for field in fields:
             self.visit_with_conv(field.type, self._field_conversion(field))
 
